@@ -7,7 +7,7 @@ from typing import Dict, FrozenSet, List, Optional, Set, Tuple
 
 from ..cfg import CFG, Node, explore, walk_node
 from ..domains import is_abs, is_abs2, is_conj, is_dagger, is_norm2, is_trace, strip_real, strip_shape
-from ..model import AnalysisError, FuncInfo, Repo, call_np, dotted, method_call, src, walk_no_nested
+from ..model import AnalysisError, FuncInfo, Repo, call_np, dotted, expand_src, method_call, src, walk_no_nested
 from ..report import Ob, bad, note, ok, skip
 from ..scope import assignments_to, full_call_name, local_bindings, resolve_alias
 from . import rule
@@ -751,6 +751,24 @@ def measure_set(repo: Repo) -> List[Ob]:
 
 
 # ------------------------------------------------------------------------------------ PAIR
+import re as _re
+_SPLICE_SFX = _re.compile(r"__h\d+")
+
+
+def _list_name(fn: ast.AST, e: ast.AST) -> Optional[str]:
+    """the local list an expression denotes, through once-bound names and cast(...)/list(...) wrappers"""
+    from ..model import single_defs
+    defs = single_defs(fn)
+    for _ in range(6):
+        if isinstance(e, ast.Name) and e.id in defs and not isinstance(defs[e.id], (ast.List, ast.ListComp)):
+            e = defs[e.id]
+        elif isinstance(e, ast.Call) and isinstance(e.func, ast.Name) and e.func.id in ("cast", "list") and e.args:
+            e = e.args[-1]
+        else:
+            break
+    return e.id if isinstance(e, ast.Name) else None
+
+
 @rule("PAIR")
 def pair(repo: Repo) -> List[Ob]:
     """tensor order and bookkeeping order are the same order"""
@@ -806,6 +824,7 @@ def pair(repo: Repo) -> List[Ob]:
                     yield from blocks(sub)
             return
     seen_blocks = set()
+    slot_lists: Set[str] = set()
     i = 0
     for n in walk_no_nested(ce.node):
         if isinstance(n, ast.Assign) and isinstance(n.value, ast.Call) and call_np(n.value) == "kron" and len(n.value.args) == 2 and src(n.targets[0]) == acc_name:
@@ -839,18 +858,23 @@ def pair(repo: Repo) -> List[Ob]:
             how, arg = upd
             t = src(arg)
             good = False
+            owner_x = expand_src(ce.node, ast.parse(owner, mode="eval").body)       # `envelope = so.envelope` read through
             if _typer.classes(ast.parse(owner, mode="eval").body) == {"ProductState"}:
                 good = how == "extend" and t == f"{owner}.state_objs"
-            elif owner.endswith(".envelope"):
-                good = how == "extend" and "indices" in t
+            elif owner_x.endswith(".envelope"):
+                ln = _list_name(ce.node, arg)
+                good = how == "extend" and ln is not None
+                if ln is not None:
+                    slot_lists.add(ln)
             else:
                 good = how == "append" and t == owner
             (obs.append(ok("PAIR", ce, key, P, n, f"kron with `{src(a1)[:30]}` is paired with {order_name}.{how}({t[:30]})")) if good else
              obs.append(bad("PAIR", ce, key, P, n, f"kron with `{src(a1)[:30]}` is paired with {order_name}.{how}({t[:40]}): the recorded members are not those of the absorbed block")))
     # envelope block: indices list is filled by fock.index / polarization.index
     idx_ok = 0
+    slot_lists.add("indices")
     for n in walk_no_nested(ce.node):
-        if isinstance(n, ast.Assign) and isinstance(n.targets[0], ast.Subscript) and src(n.targets[0].value) == "indices":
+        if isinstance(n, ast.Assign) and isinstance(n.targets[0], ast.Subscript) and _SPLICE_SFX.sub("", src(n.targets[0].value)) in {_SPLICE_SFX.sub("", x) for x in slot_lists}:
             sl, val = src(n.targets[0].slice), src(n.value)
             if sl.endswith(".fock.index") and val.endswith(".fock") or sl.endswith(".polarization.index") and val.endswith(".polarization"):
                 idx_ok += 1
